@@ -7,21 +7,29 @@ from common import *
 
 ID = 'C14'
 COQ_FILES = ['Base/Mat.v', 'Base/SumQ.v', 'Base/ListX.v', 'Model/Partition.v', 'Model/PartitionReal.v', 'Model/PartitionDG.v',
+             'Model/PartitionDV.v', 'Model/PartitionLS.v', 'Model/PartitionGWB.v',
              'Proofs/Partition.v', 'Proofs/PartitionJoint.v', 'Proofs/PartitionVI.v', 'Proofs/PartitionDG.v',
-             'Proofs/PartitionGW.v', 'Properties/C14.v']
+             'Proofs/PartitionGW.v', 'Proofs/PartitionLS.v', 'Proofs/PartitionGWB.v', 'Proofs/PartitionDV.v',
+             'Model/Modularity.v', 'Proofs/ModularitySums.v', 'Proofs/ModularityQ.v', 'Proofs/PartitionSignAgree.v',
+             'Properties/C14.v']
 THEOREMS = ['C14_relabel_injective_invariant', 'C14_relabel_canonical', 'C14_relabel_onto', 'C14_injective_same_part',
             'C14_participation_coef_partition_only', 'C14_participation_coef_formula',
             'C14_participation_coef_sign_partition_only', 'C14_module_degree_zscore_partition_only',
             'C14_module_degree_zscore_invariant', 'C14_modularity_und_partition_only',
             'C14_modularity_dir_partition_only', 'C14_modularity_und_sign_partition_only',
-            'C14_agreement_counts', 'C14_agreement_partition_only', 'C14_partition_distance_symmetric',
+            'C14_und_sign_models_agree',
+            'C14_agreement_counts', 'C14_agreement_partition_only', 'C14_agreement_statement_level', 'C14_dummyvar_spec',
+            'C14_partition_distance_symmetric',
             'C14_partition_distance_partition_only', 'C14_partition_distance_same', 'C14_VIn_nonneg',
             'C14_VIn_zero_same', 'C14_MIn_one_same', 'C14_partition_distance_exactly_when', 'C14_VIn_range_any_log', 'C14_VIn_range',
             'C14_partition_distance_ln_symmetric', 'C14_partition_distance_ln_partition_only',
             'C14_partition_distance_ln_same', 'C14_partition_distance_ln_exactly_when', 'C14_ci2ls_ls2ci_inverse',
-            'C14_ci2ls_blocks', 'C14_diversity_coef_sign_partition_only', 'C14_gateway_coef_sign_refuted',
+            'C14_ci2ls_blocks', 'C14_ls2ci_ci2ls_inverse', 'C14_ci2ls_ls2ci_run', 'C14_ls2ci_ci2ls_edge_cases',
+            'C14_diversity_coef_sign_partition_only', 'C14_gateway_coef_sign_refuted',
             'C14_gateway_coef_sign_statement_false', 'C14_gateway_witness_values',
-            'C14_gateway_coef_sign_repaired_partition_only']
+            'C14_gateway_coef_sign_repaired_partition_only',
+            'C14_gateway_coef_sign_betweenness_refuted', 'C14_gateway_betweenness_witness_values',
+            'C14_gateway_coef_sign_degree_instance']
 RULE = ('every set partition of n<=5 nodes (n<=6 thorough), written with restricted-growth labels 1..K, x the relabellings '
         '{zero-based, negative, gaps, large (2^40+), huge (adjacent int64 at +-2^62), permuted block order, random injective mix} x random matrices with small '
         'dyadic weights (undirected weighted / directed / signed, several densities, isolated nodes); pairs of partitions '
@@ -51,6 +59,13 @@ def enc_zb(x):
     """labels beyond OCaml's native int range go to the driver in binary (ocaml/common.ml: z_of_string)"""
     x = int(x)
     return str(x) if abs(x) < 2 ** 60 else ('-' if x < 0 else '') + '0b' + bin(abs(x))[2:]
+
+
+def enc_qb(x):
+    """exact rational of a float / Fraction; numerators or denominators beyond OCaml's native int go in binary"""
+    f = F(x)
+    a, b = f.numerator, f.denominator
+    return enc_zb(a) if b == 1 else enc_zb(a) + '/' + enc_zb(b)
 
 
 def close(a, b):
@@ -103,7 +118,18 @@ def same_partition(a, b):
 VALS = [F(1), F(2), F(3), F(1, 2), F(3, 2), F(1, 4)]
 
 
-def rand_W(r, n, kind):
+def rand_W(r, n, kind, diag=False):
+    W = rand_W0(r, n, kind)
+    if diag:
+        # self-connections: every consumer is called with a non-zero diagonal as well
+        for i in range(n):
+            if r.rand() < 0.7:
+                v = VALS[int(r.randint(0, len(VALS)))]
+                W[i][i] = -v if (kind == 'sign' and r.rand() < 0.4) else v
+    return W
+
+
+def rand_W0(r, n, kind):
     dens = float(r.choice([0.3, 0.6, 0.9, 1.0]))
     kv = int(r.randint(1, len(VALS) + 1))
     W = [[F(0)] * n for _ in range(n)]
@@ -232,13 +258,15 @@ def o_diversity(W, ci):
     return ent(W0), ent(W1)
 
 
-def repaired_gateway(bct):
-    """gateway_coef_sign with proposed_fixes/gateway_coef_sign.diff applied to its source text (None if it does not apply)"""
+def repaired_gateway(bct, fname='gateway_coef_sign', diff_file='gateway_coef_sign.diff'):
+    """bct.<fname> with proposed_fixes/<diff_file> applied to its source text (None if it does not apply)"""
     import inspect, os, sys
     try:
-        src = inspect.getsource(bct.gateway_coef_sign)
+        fobj = getattr(bct, fname)
+        fobj = getattr(fobj, '__wrapped__', fobj)
+        src = inspect.getsource(fobj)
         root = os.path.dirname(os.path.dirname(os.path.abspath(__file__)))
-        diff = open(os.path.join(root, 'proposed_fixes', 'gateway_coef_sign.diff')).read().split('\n')
+        diff = open(os.path.join(root, 'proposed_fixes', diff_file)).read().split('\n')
         blocks, minus, plus = [], [], []
         for ln in diff:
             if ln.startswith('---') or ln.startswith('+++'):
@@ -260,10 +288,10 @@ def repaired_gateway(bct):
             if not m or src.count(old) != 1:
                 return None
             src = src.replace(old, new)
-        src = src[src.index('def gateway_coef_sign'):]
-        ns = dict(vars(sys.modules[bct.gateway_coef_sign.__module__]))
-        exec(compile(src, '<gateway_coef_sign repaired>', 'exec'), ns)
-        return ns['gateway_coef_sign']
+        src = src[src.index('def ' + fname):]
+        ns = dict(vars(sys.modules[fobj.__module__]))
+        exec(compile(src, '<%s repaired>' % fname, 'exec'), ns)
+        return ns[fname]
     except Exception:
         return None
 
@@ -276,6 +304,8 @@ def run(ctx):
     slow = {}          # function -> number of timeouts; after 2 the function is not called any more (keeps the check fast)
     gw_fixed = repaired_gateway(bct)
     ctx.count('gateway_coef_sign_repaired:' + ('available' if gw_fixed is not None else 'patch-does-not-apply'))
+    pd_fixed = repaired_gateway(bct, 'partition_distance', 'partition_distance_roundoff.diff')
+    ctx.count('partition_distance_repaired:' + ('available' if pd_fixed is not None else 'patch-does-not-apply'))
 
     def model(line, kind, case, impl):
         lines.append(line); pend.append((kind, case, impl))
@@ -382,23 +412,37 @@ def run(ctx):
             for d in range(n):
                 Wg[d][d] = VALS[int(r.randint(0, len(VALS)))] * int(r.choice([-1, 1]))      # the routine clears the diagonal
         Ag = npm(Wg)
-        for cm in ('degree',):
+        # 'betweenness': cent = betweenness_wei(invert(W)) is an external kernel: the harness computes the two vectors (positive /
+        # negative part) with the same calls and hands them to the model (Model/PartitionGWB.v) as oracle input
+        Az = Ag.copy(); np.fill_diagonal(Az, 0)
+        cent_b = None
+        for cm in ('degree', 'betweenness'):
+            gkey = 'gateway_coef_sign' if cm == 'degree' else 'gateway_coef_sign[betweenness]'
+            picked = ('base', 'neg-rev', 'perm', 'mix', 'huge')
+            if cm == 'betweenness':
+                try:
+                    with np.errstate(all='ignore'):
+                        cent_b = [[F(float(x)) for x in call(bct.betweenness_wei, bct.invert(Mx))] for Mx in (Az * (Az > 0), -Az * (Az < 0))]
+                except Exception as e:
+                    ctx.fail('gateway_coef_sign[betweenness]:raises', 'betweenness_wei(invert(W)) raised %r' % (e,), {'fn': 'gateway_coef_sign', 'W': sW(Wg), 'centrality': cm}); continue
             ref = None; ref_r = None; gref_v = []
             for nm, labels in variants:
+                if cm == 'betweenness' and not (ctx.thorough or nm in picked):
+                    continue
                 c = np.array(labels, dtype=np.int64)
                 case = {'fn': 'gateway_coef_sign', 'W': sW(Wg), 'ci': [int(x) for x in labels], 'relabelling': nm, 'centrality': cm}
                 ctx.case(case, nontrivial=(K >= 2 and nm != 'base'))
-                ctx.count('gateway_coef_sign:%s' % nm)
+                ctx.count('%s:%s' % (gkey, nm))
                 A0 = Ag.copy()
                 try:
                     with np.errstate(all='ignore'):
                         out = call(bct.gateway_coef_sign, A0, c, cm)
                 except IndexError as e:
                     out = None
-                    ctx.fail('gateway_coef_sign:relabel', 'raised %r' % (e,), case)
+                    ctx.fail(gkey + ':relabel', 'raised %r' % (e,), case)
                 except Exception as e:
-                    ctx.fail('gateway_coef_sign:raises', 'raised %r' % (e,), case); continue
-                ctx.check(np.array_equal(A0, Ag), 'gateway_coef_sign:pure', 'the matrix was modified in place', case)
+                    ctx.fail(gkey + ':raises', 'raised %r' % (e,), case); continue
+                ctx.check(np.array_equal(A0, Ag), gkey + ':pure', 'the matrix was modified in place', case)
                 tie_variants(case)
                 if nm == 'base':
                     gref_v = list(case.get('_input_variant') or [])
@@ -406,26 +450,32 @@ def run(ctx):
                     case['_input_variant'] = list(case.get('_input_variant') or []) + gref_v
                 # monotone renamings give the same canonical labels: in the quick tier only those that can change the block
                 # order (and one huge) go through the model
-                if ctx.thorough or nm in ('base', 'neg-rev', 'perm', 'mix', 'huge'):
-                    model('gw %s %s' % (enc_mat(Wg, enc_q), enc_list(labels, enc_zb)), 'gw', case, None if out is None else [tolist(out[0]), tolist(out[1])])
+                if ctx.thorough or nm in picked:
+                    if cm == 'degree':
+                        model('gw %s %s' % (enc_mat(Wg, enc_q), enc_list(labels, enc_zb)), 'gw', case, None if out is None else [tolist(out[0]), tolist(out[1])])
+                    else:
+                        model('gwb %s %s %s %s' % (enc_mat(Wg, enc_q), enc_list(labels, enc_zb), enc_list(cent_b[0], enc_qb), enc_list(cent_b[1], enc_qb)),
+                              'gw', case, None if out is None else [tolist(out[0]), tolist(out[1])])
                 if nm == 'base':
                     ref = out
                 elif ref is not None and out is not None:
-                    ctx.check(close(out, ref), 'gateway_coef_sign:relabel', 'result changes under the relabelling %s' % nm, case)
-                if gw_fixed is not None and (ctx.thorough or nm in ('base', 'neg-rev', 'perm', 'mix', 'huge')):
+                    ctx.check(close(out, ref), gkey + ':relabel', 'result changes under the relabelling %s' % nm, case)
+                if gw_fixed is not None and (ctx.thorough or nm in picked):
+                    rkey = 'gateway_coef_sign_repaired' if cm == 'degree' else 'gateway_coef_sign_repaired[betweenness]'
                     case_r = dict(case, fn='gateway_coef_sign_repaired')
                     try:
                         with np.errstate(all='ignore'):
                             out_r = call(gw_fixed, Ag.copy(), c, cm)
                     except Exception as e:
-                        ctx.fail('gateway_coef_sign_repaired:raises', 'the repaired form raised %r' % (e,), case_r); continue
+                        ctx.fail(rkey + ':raises', 'the repaired form raised %r' % (e,), case_r); continue
                     if nm == 'base':
                         ref_r = out_r
-                        model('gwr %s %s' % (enc_mat(Wg, enc_q), enc_list(labels, enc_zb)), 'pairvecq', case_r, [tolist(out_r[0]), tolist(out_r[1])])
+                        if cm == 'degree':
+                            model('gwr %s %s' % (enc_mat(Wg, enc_q), enc_list(labels, enc_zb)), 'pairvecq', case_r, [tolist(out_r[0]), tolist(out_r[1])])
                     else:
-                        ctx.check(ref_r is None or close(out_r, ref_r), 'gateway_coef_sign_repaired:relabel',
+                        ctx.check(ref_r is None or close(out_r, ref_r), rkey + ':relabel',
                                   'the repaired form changes under the relabelling %s' % nm, case_r)
-                        if nm in ('perm', 'mix'):
+                        if cm == 'degree' and nm in ('perm', 'mix'):
                             model('gwr %s %s' % (enc_mat(Wg, enc_q), enc_list(labels, enc_zb)), 'pairvecq', case_r, [tolist(out_r[0]), tolist(out_r[1])])
         # relabel itself and ci2ls / ls2ci
         for nm, labels in variants:
@@ -444,6 +494,77 @@ def run(ctx):
             model('relabel %s' % enc_list(labels, enc_zb), 'relabel', case, inv)
             model('ci2ls %s' % enc_list(labels, enc_zb), 'ci2ls', case, [[int(x) for x in b] for b in ls])
             model('ls2ci %s' % enc_mat(ls), 'ls2ci', case, [int(x) for x in back])
+            model('ci2ls_run %s' % enc_list(labels, enc_zb), 'ci2ls', case, [[int(x) for x in b] for b in ls])
+            model('ls2ci_run 1 %s' % enc_mat(ls), 'ls2ci', case, [int(x) for x in back0])
+            # label containers / dtypes: the same labels as a Python list, as floats, as int32 (when they fit)
+            alts = [('list', [int(x) for x in labels])]
+            if all(abs(int(x)) < 2 ** 53 for x in labels):
+                alts.append(('float64', np.array(labels, dtype=float)))
+            if all(abs(int(x)) < 2 ** 31 for x in labels):
+                alts.append(('int32', np.array(labels, dtype=np.int32)))
+            for an, alt in alts:
+                try:
+                    ctx.check(bct.ci2ls(alt) == ls, 'ci2ls:label-container', 'ci2ls differs when the labels come as %s' % an, dict(case, container=an))
+                except Exception as e:
+                    ctx.fail('ci2ls:label-container', 'raised %r when the labels come as %s' % (e, an), dict(case, container=an))
+        # ls2ci on lists that are NOT ci2ls output: block order and the order inside the blocks shuffled, sometimes an
+        # empty block; both values of zeroindexed.  Oracle: node y of block i gets i + z; ci2ls of the result lists the
+        # non-empty blocks, each ascending, in the order given.
+        for rep in range(2):
+            sh = [list(b) for b in blocks_of(list(base))]
+            ctx.rng.shuffle(sh)
+            for b in sh:
+                ctx.rng.shuffle(b)
+            if rep == 1:
+                sh.insert(ctx.rng.randrange(len(sh) + 1), [])
+            for zi in (False, True):
+                case = {'fn': 'ls2ci', 'ls': [list(b) for b in sh], 'zeroindexed': zi}
+                ctx.case(case, nontrivial=len(sh) >= 2)
+                ctx.count('ls2ci:%s' % ('empty-block' if rep else 'shuffled'))
+                sh0 = [list(b) for b in sh]
+                try:
+                    out = bct.ls2ci(sh, zeroindexed=zi)
+                except Exception as e:
+                    ctx.fail('ls2ci:raises', 'raised %r' % (e,), case); continue
+                ctx.check(sh == sh0, 'ls2ci:pure', 'the list was modified', case)
+                z = 0 if zi else 1
+                ok = len(out) == n and all(int(out[y]) == i + z for i, b in enumerate(sh) for y in b)
+                ctx.check(ok, 'ls2ci:formula', 'node y of block i does not get the label i + %d: %s' % (z, tolist(out)), case)
+                try:
+                    back_ls = bct.ci2ls(out)
+                    ctx.check(back_ls == [sorted(b) for b in sh if b], 'ci2ls:inverse',
+                              'ci2ls(ls2ci(ls)) is not ls with ascending blocks (empty blocks dropped): %s' % (back_ls,), case)
+                    model('ci2ls_run %s' % enc_list([int(x) for x in out], enc_zb), 'ci2ls', case, [[int(x) for x in b] for b in back_ls])
+                except Exception as e:
+                    ctx.fail('ci2ls:raises', 'raised %r on the output of ls2ci' % (e,), case)
+                model('ls2ci_run %d %s' % (1 if zi else 0, enc_mat(sh)), 'ls2ci', case, [int(x) for x in out])
+
+    ULP = 1e-12        # |error| below this is binary64 round-off of a sum of a few logarithms (observed: 1.2e-16 .. 2.2e-16)
+
+    def pd_exact(fun, key, cx, cy, case):
+        """the clauses of the property text on one implementation of partition_distance, judged EXACTLY where the text says
+        'exactly': same partition <=> VIn == 0 <=> MIn == 1, 0 <= VIn <= 1; a miss by round-off only goes to <key>:VIn-roundoff,
+        a miss by more to the clause itself"""
+        n = len(cx)
+        try:
+            vin, mi = call(fun, np.array(cx, dtype=np.int64), np.array(cy, dtype=np.int64))
+        except Exception as e:
+            ctx.fail(key + ':raises', 'raised %r' % (e,), case); return None
+        vin, mi = float(vin), float(mi)
+        same = same_partition(cx, cy)
+        if n == 1 or (len(set(cx)) == 1 and len(set(cy)) == 1):
+            return vin, mi
+        if same:
+            if not (vin == 0 and mi == 1):
+                rough = abs(vin) < ULP and abs(mi - 1) < ULP
+                ctx.fail(key + (':VIn-roundoff' if rough else ':zero-iff-same'),
+                         'the partitions coincide up to renaming but (VIn, MIn) = (%r, %r), not (0, 1) exactly' % (vin, mi), case)
+        else:
+            ctx.check(vin > ULP, key + ':zero-iff-same', 'VIn=%r for different partitions' % vin, case)
+            ctx.check(mi < 1 - ULP, key + ':one-iff-same', 'MIn=%r for different partitions' % mi, case)
+        if not (0 <= vin <= 1):
+            ctx.fail(key + (':VIn-roundoff' if -ULP < vin < 1 + ULP else ':range'), 'VIn=%r outside [0,1]' % vin, case)
+        return vin, mi
 
     def pdist(cx, cy, tag):
         n = len(cx)
@@ -467,13 +588,38 @@ def run(ctx):
         else:
             wv, wm = o_pdist(cx, cy)
             ctx.check(close(vin, wv) and close(mi, wm), 'partition_distance:formula', 'differs from the entropies of the block sizes: got (%r,%r) want (%r,%r)' % (vin, mi, wv, wm), case)
-            ctx.check(-1e-12 <= vin <= 1 + 1e-12, 'partition_distance:range', 'VIn=%r outside [0,1]' % vin, case)
-            ctx.check((abs(vin) < 1e-12) == same, 'partition_distance:zero-iff-same', 'VIn=%r but same partition=%s' % (vin, same), case)
-            ctx.check((abs(mi - 1) < 1e-12) == same, 'partition_distance:one-iff-same', 'MIn=%r but same partition=%s' % (mi, same), case)
+            # 'zero ... exactly when the two partitions coincide', 'lies in [0,1]': judged exactly (binary64 misses by one unit
+            # in the last place: open finding partition_distance:VIn-roundoff); the repaired form must meet them exactly
+            pd_exact(bct.partition_distance, 'partition_distance', cx, cy, case)
+            if pd_fixed is not None:
+                case_r = dict(case, fn='partition_distance_repaired')
+                rr = pd_exact(pd_fixed, 'partition_distance_repaired', cx, cy, case_r)
+                r2 = pd_exact(pd_fixed, 'partition_distance_repaired', cy, cx, case_r)
+                if rr is not None and r2 is not None:
+                    ctx.check(rr == r2, 'partition_distance_repaired:symmetric', 'the repaired form is not bit-for-bit symmetric: %r vs %r' % (rr, r2), case_r)
+                    ctx.check(close(rr[0], vin) and close(rr[1], mi), 'partition_distance_repaired:formula', 'the repaired form moves the value: %r vs (%r, %r)' % (rr, vin, mi), case_r)
+        # label containers: Python lists, float labels, int32
+        if n >= 2 and ctx.rng.random() < 0.25:
+            for an, conv in (('list', lambda v: [int(x) for x in v]), ('float64', lambda v: np.array(v, dtype=float)), ('int32', lambda v: np.array(v, dtype=np.int32))):
+                if an != 'list' and any(abs(int(x)) >= 2 ** 31 for x in list(cx) + list(cy)):
+                    continue
+                try:
+                    alt = call(bct.partition_distance, conv(cx), conv(cy))
+                    ctx.check(close(alt, (vin, mi)), 'partition_distance:label-container', 'result differs when the labels come as %s: %r' % (an, tolist(alt)), dict(case, container=an))
+                except Exception as e:
+                    ctx.fail('partition_distance:label-container', 'raised %r when the labels come as %s' % (e, an), dict(case, container=an))
         model('pd %s %s' % (enc_list(cx, enc_zb), enc_list(cy, enc_zb)), 'pd', case, (vin, mi, trivial))
 
-    def agree(cols, tag):
-        n = len(cols[0])
+    def argsort_cols(ci, chunks):
+        """the argsort oracle of dummyvar, computed the way agreement calls it: per block of columns"""
+        cols = []
+        for a, b in chunks:
+            ix = np.argsort(ci[:, a:b], axis=0)
+            cols += [[int(x) for x in ix[:, t]] for t in range(b - a)]
+        return cols
+
+    def agree(cols, tag, buffs=()):
+        n = len(cols[0]); m = len(cols)
         case = {'fn': 'agreement', 'partitions': [[int(x) for x in c] for c in cols]}
         ctx.case(case, nontrivial=any(len(set(c)) > 1 for c in cols))
         ctx.count('agreement:' + tag)
@@ -484,10 +630,40 @@ def run(ctx):
             ctx.fail('agreement:raises', 'raised %r' % (e,), case); return None
         want = [[0 if i == j else sum(1 for c in cols if c[i] == c[j]) for j in range(n)] for i in range(n)]
         ctx.check(np.array_equal(np.asarray(D), np.array(want).reshape(n, n)), 'agreement:formula', 'D[i,j] is not the number of partitions that put i and j together', case)
-        if len(cols) >= 2:
-            D2 = call(bct.agreement, ci.copy(), 1)
-            ctx.check(np.array_equal(np.asarray(D2), np.asarray(D)), 'agreement:buffsz', 'buffered evaluation differs', case)
+        # buffsz: 1, and values that split the stack unevenly (last block shorter), = m, > m
+        bs = sorted(set([1] + [b for b in buffs if b >= 1])) if m >= 2 else []
+        for B in bs:
+            caseB = dict(case, buffsz=B)
+            try:
+                D2 = call(bct.agreement, ci.copy(), B)
+            except Exception as e:
+                ctx.fail('agreement:raises', 'raised %r with buffsz=%d' % (e, B), caseB); continue
+            ctx.check(np.array_equal(np.asarray(D2), np.asarray(D)), 'agreement:buffsz', 'buffered evaluation (buffsz=%d) differs' % B, caseB)
+            if B == 1 and m > 3 and not ctx.thorough:
+                continue
+            chunks = [(0, m)] if m <= B else [(a, min(a + B, m)) for a in range(0, m, B)]
+            model('agree_stmt %d %s %s %d' % (n, enc_mat(cols, enc_zb), enc_mat(argsort_cols(ci, chunks)), B), 'agree', caseB, np.asarray(D2).tolist())
         model('agree %d %s' % (n, enc_mat(cols, enc_zb)), 'agree', case, np.asarray(D).tolist())
+        # dummyvar itself: one 0/1 column per (partition, distinct label), partitions in order, labels ascending
+        dcase = dict(case, fn='dummyvar')
+        try:
+            from bct.utils import dummyvar
+            dv = np.asarray(call(dummyvar, ci.copy()))
+            wantdv = []
+            for i in range(n):
+                row = []
+                for c in cols:
+                    u = sorted(set(c))
+                    row += [1 if u[k] == c[i] else 0 for k in range(len(u))]
+                wantdv.append(row)
+            ctx.check(dv.shape == (n, len(wantdv[0])) and np.array_equal(dv, np.array(wantdv)), 'dummyvar:formula',
+                      'dummyvar is not the indicator matrix of (partition, label): %s' % (tolist(dv),), dcase)
+            ixs = argsort_cols(ci, [(0, m)])
+            ctx.check(all(sorted(ix) == list(range(n)) and all(cols[p][ix[k]] <= cols[p][ix[k + 1]] for k in range(n - 1)) for p, ix in enumerate(ixs)),
+                      'dummyvar:argsort-oracle', 'np.argsort(axis=0) did not return sorting permutations', dcase)
+            model('dummyvar %d %s %s' % (n, enc_mat(cols, enc_zb), enc_mat(ixs)), 'dummyvar', dcase, dv.tolist())
+        except Exception as e:
+            ctx.fail('dummyvar:raises', 'raised %r' % (e,), dcase)
         return D
 
     # ---- corpus
@@ -506,22 +682,79 @@ def run(ctx):
             ctx.fail('gateway_coef_sign:relabel', 'witness of C14_gateway_coef_sign_refuted reproduces: %s vs %s' % (tolist(g1), tolist(g2)), wcase)
     except Exception as e:
         ctx.fail('gateway_coef_sign:raises', 'raised %r on the witness' % (e,), wcase)
+    # witness of C14_gateway_coef_sign_betweenness_refuted: 4-cycle with weights 1,3,1,2, blocks {0,1},{2,3}; the oracle vector
+    # of the Coq witness is what betweenness_wei(invert(W)) returns
+    W4 = np.array([[0., 1., 0., 2.], [1., 0., 3., 0.], [0., 3., 0., 1.], [2., 0., 1., 0.]])
+    bcase = {'fn': 'gateway_coef_sign', 'W': W4.tolist(), 'ci': [1, 1, 2, 2], 'ci2': [2, 2, 1, 1], 'centrality': 'betweenness',
+             'witness_of': 'C14_gateway_coef_sign_betweenness_refuted'}
+    ctx.case(bcase, nontrivial=True)
+    try:
+        with np.errstate(all='ignore'):
+            cb = bct.betweenness_wei(bct.invert(W4.copy()))
+            g1 = bct.gateway_coef_sign(W4.copy(), np.array([1, 1, 2, 2]), 'betweenness')[0]
+            g2 = bct.gateway_coef_sign(W4.copy(), np.array([2, 2, 1, 1]), 'betweenness')[0]
+        ctx.check(np.array_equal(cb, [0, 2, 2, 0]), 'gateway_coef_sign[betweenness]:witness', 'betweenness_wei(invert(W)) is not the oracle vector [0,2,2,0] of the Coq witness: %s' % tolist(cb), bcase)
+        if not close(g1, g2):
+            ctx.check(close(g1, [380 / 441, 3 / 8, 151 / 196, 4 / 9]) and close(g2, [305 / 441, 3 / 8, 375 / 392, 4 / 9]), 'gateway_coef_sign[betweenness]:witness',
+                      'the implementation differs on the two labellings but not with the values of the Coq witness: %s %s' % (tolist(g1), tolist(g2)), bcase)
+            ctx.fail('gateway_coef_sign[betweenness]:relabel', 'witness of C14_gateway_coef_sign_betweenness_refuted reproduces: %s vs %s' % (tolist(g1), tolist(g2)), bcase)
+    except Exception as e:
+        ctx.fail('gateway_coef_sign[betweenness]:raises', 'raised %r on the witness' % (e,), bcase)
     pdist([1, 1, 1], [5, 5, 5], 'corpus')
     pdist([1, 2, 2, 3], [9, -4, -4, 0], 'corpus')
+    # the same partition with permuted block order: binary64 gives VIn = -1.24e-16 (open finding partition_distance:VIn-roundoff);
+    # one block against singletons, n = 5: VIn = 1.0000000000000002
+    pdist([2, 2, 1, 2, 3, 4], [6, 6, 5, 6, 1, 3], 'corpus')
+    pdist([1, 1, 1, 1, 1], [11, 12, 9, 10, 8], 'corpus')
+    # many blocks (float bin edges of np.histogram, joint keys beyond 9)
+    big = [int(x) for x in r.permutation(14)]
+    pdist(big, [x // 2 for x in big], 'many-blocks')
+    pdist([3 * x - 20 for x in big], [(x * 5) % 11 for x in big], 'many-blocks')
+    # ci2ls / ls2ci: empty input, an index beyond the number of entries, a hand-made list with an empty block
+    for nm_, fcall, line, want in [
+            ('ls2ci([])', lambda: list(bct.ls2ci([])), 'ls2ci_run 0 0', []),
+            ('ls2ci([], zeroindexed=True)', lambda: list(bct.ls2ci([], zeroindexed=True)), 'ls2ci_run 1 0', []),
+            ('ls2ci(None)', lambda: list(bct.ls2ci(None)), None, []),
+            ('ci2ls(np.array([]))', lambda: list(bct.ci2ls(np.array([]))), 'ci2ls_run 0', []),
+            ('ci2ls([])', lambda: list(bct.ci2ls([])), 'ci2ls_run 0', []),
+            ('ls2ci([[2,0],[],[1]])', lambda: [int(x) for x in bct.ls2ci([[2, 0], [], [1]])], 'ls2ci_run 0 ' + enc_mat([[2, 0], [], [1]]), [1, 3, 1]),
+            ('ls2ci([[1],[0,2]], zeroindexed=True)', lambda: [int(x) for x in bct.ls2ci([[1], [0, 2]], zeroindexed=True)], 'ls2ci_run 1 ' + enc_mat([[1], [0, 2]]), [1, 0, 1]),
+            ('ls2ci([[0,5]])', lambda: [int(x) for x in bct.ls2ci([[0, 5]])], 'ls2ci_run 0 ' + enc_mat([[0, 5]]), IndexError),
+            ('ls2ci([[0],[3,1]])', lambda: [int(x) for x in bct.ls2ci([[0], [3, 1]])], 'ls2ci_run 0 ' + enc_mat([[0], [3, 1]]), IndexError)]:
+        ecase = {'fn': nm_.split('(')[0], 'call': nm_}
+        ctx.case(ecase, nontrivial=False); ctx.count('ls:edge-case')
+        try:
+            got = fcall()
+        except IndexError:
+            got = IndexError
+        except Exception as e:
+            ctx.fail(ecase['fn'] + ':raises', '%s raised %r' % (nm_, e), ecase); continue
+        ctx.check(got == want, ecase['fn'] + ':edge-case', '%s gives %r, expected %r' % (nm_, got, 'IndexError' if want is IndexError else want), ecase)
+        if line is not None:
+            model(line, 'ls2ci' if nm_.startswith('ls2ci') else 'ci2ls', ecase, None if got is IndexError else got)
+    # agreement: stacks that buffsz splits unevenly (7 = 3+3+1 = 2+2+2+1 = 5+2 = 4+3 ...), identical columns, one column
+    for t in range(ctx.scale(6, 40)):
+        n_ = int(r.randint(1, 7)); m_ = int(r.randint(2, 8))
+        cols = [[int(x) for x in r.randint(-2, 3, size=n_)] for _ in range(m_)]
+        if t % 3 == 0:
+            cols[-1] = list(cols[0])
+        agree(cols, 'chunks', buffs=sorted(set(int(x) for x in r.randint(2, m_ + 2, size=2)) | {m_ - 1, m_}))
 
     # ---- exhaustive partitions x relabellings
     nmax = ctx.scale(5, 6)
     reps = ctx.scale(1, 2)
-    for n in range(2, nmax + 1):
+    for n in range(1, nmax + 1):
         for base in set_partitions(n):
             for _ in range(reps if n >= 4 else 1):
-                W, Wd, Ws = rand_W(r, n, 'und'), rand_W(r, n, 'dir'), rand_W(r, n, 'sign')
+                dg = bool(r.rand() < (0.3 if n > 1 else 0.5))
+                ctx.count('diagonal:' + ('non-zero' if dg else 'zero'))
+                W, Wd, Ws = rand_W(r, n, 'und', dg), rand_W(r, n, 'dir', dg), rand_W(r, n, 'sign', dg)
                 consumers(base, W, Wd, Ws, 'exhaustive')
             # agreement: this partition stacked with random others, relabelled per column
             K = max(base)
             others = [[int(x) for x in r.randint(1, 4, size=n)] for _ in range(int(r.randint(0, 4)))]
             cols = [list(base)] + others
-            D1 = agree(cols, 'exhaustive')
+            D1 = agree(cols, 'exhaustive', buffs=(2, len(cols) - 1))
             cols2 = []
             for c in cols:
                 kk = max(c)
@@ -554,14 +787,16 @@ def run(ctx):
         raw = [int(x) for x in r.randint(0, K, size=n)]
         first = {}
         base = [first.setdefault(x, len(first) + 1) for x in raw]
-        consumers(base, rand_W(r, n, 'und'), rand_W(r, n, 'dir'), rand_W(r, n, 'sign'), 'random')
+        dg = bool(r.rand() < 0.3)
+        ctx.count('diagonal:' + ('non-zero' if dg else 'zero'))
+        consumers(base, rand_W(r, n, 'und', dg), rand_W(r, n, 'dir', dg), rand_W(r, n, 'sign', dg), 'random')
         raw2 = [int(x) for x in r.randint(-2, 3, size=n)]
         pdist(base, raw2, 'random')
         # a refinement / coarsening pair and an identical-up-to-renaming pair
         coarse = [(x + 1) // 2 for x in base]
         pdist(base, coarse, 'refinement')
         pdist(base, [100 - 3 * x for x in base], 'renamed')
-        agree([base, raw2, coarse][:int(r.randint(1, 4))], 'random')
+        agree([base, raw2, coarse][:int(r.randint(1, 4))], 'random', buffs=(2,))
 
     # ---------------- correspondence: extracted Coq model on the same inputs
     res = run_model(ID, lines)
@@ -593,6 +828,8 @@ def run(ctx):
             if not ok:
                 ctx.mismatch(fn, 'model pnm matrices do not reproduce the implementation', case, mvs, tolist(impl))
         elif kind == 'gw':
+            if case.get('centrality') == 'betweenness':
+                fn = fn + '[betweenness]'
             if m is None or impl is None:
                 if not (m is None and impl is None):
                     ctx.mismatch(fn, 'model and implementation disagree on IndexError', case, m, impl)
@@ -614,6 +851,12 @@ def run(ctx):
         elif kind in ('relabel', 'ci2ls', 'ls2ci'):
             if m != impl:
                 ctx.mismatch(kind, 'model and implementation differ', case, m, impl)
+        elif kind == 'dummyvar':
+            mv = [[int(dec_q(x)) for x in row] for row in m[0]]
+            R, nptr = m[1]
+            cols_impl = len(impl[0]) if impl else 0
+            if not (mv == impl and R == cols_impl and nptr == R + 1):
+                ctx.mismatch('dummyvar', 'model (argsort oracle from the run) and implementation differ', case, [mv, R, nptr], impl)
         elif kind == 'agree':
             mv = [[float(dec_q(x)) for x in row] for row in m]
             if not np.array_equal(np.array(mv), np.array(impl, dtype=float)):
